@@ -26,6 +26,10 @@ CONSTANTS
  DevToolReaps = FALSE
  DevEscapeFastPath = FALSE
  DevEtcdDeletePrefix = FALSE
+ DevStaleNextOffset = FALSE
+ DevGrowSameCountOk = FALSE
+ DevToolPersistsDefault = FALSE
+ DevToolGroupDefaults = FALSE
 INIT Init
 NEXT NextCoord
 INVARIANTS C16_ReadBack
